@@ -295,6 +295,8 @@ func (vc *VC) callFunction(fr *Frame, fn *ssa.Function, bindings []*Val, args []
 				extra[fn.FreeVars[i].Name()] = vc.freeVarSpecVal(b)
 			}
 		}
+		vc.nameSigOverride = nameSig(fn)
+		defer func() { vc.nameSigOverride = nil }()
 		return vc.applyContractX(fr, spec, calleeShort(name), fn.Signature, args, names, extra, pos)
 	}
 	if (spec != nil && (spec.Inline || spec.Transparent)) || fn.Parent() != nil && bindings != nil || vc.isTransparent(fr, fn) {
@@ -496,6 +498,10 @@ func (vc *VC) applyContractX(fr *Frame, spec *FuncSpec, name string, sig *types.
 	}
 	// results
 	rnames := vc.resultNames(spec, sig)
+	if vc.nameSigOverride != nil {
+		rnames = vc.resultNames(spec, vc.nameSigOverride)
+		vc.nameSigOverride = nil
+	}
 	res := vc.resultOf(sig, func(i int, t types.Type) *Val {
 		v := &Val{T: vc.fresh(sanitize(lastSeg(name))+"_"+rnames[i], vc.sortOf(t)), Ty: t}
 		vc.valueFacts(v.T, t)
